@@ -43,6 +43,9 @@ Definition pobs_eqb (a b : pobs) : bool :=
 Fixpoint pobss_eqb (a b : list pobs) : bool :=
   match a, b with [], [] => true | x :: a', y :: b' => pobs_eqb x y && pobss_eqb a' b' | _, _ => false end.
 
-Definition check_parent (d : list Z) (dk : list (Z * Z)) (ops : list pop) (observed : list pobs) : bool :=
+Definition guard_of (k : kind) : enq_guard :=
+  match k with KThread => enq_guard_thread | KProcess => enq_guard_process | KRemote => enq_guard_remote end.
+
+Definition check_parent (k : kind) (d : list Z) (dk : list (Z * Z)) (ops : list pop) (observed : list pobs) : bool :=
   let g := fun e => hashf (merge_args d e) (merge_kw dk e) in
-  pobss_eqb (prun g (mkP [] false false O) ops) observed.
+  pobss_eqb (prun (guard_of k) g pst0 ops) observed.
